@@ -20,7 +20,7 @@ func init() {
 			"(X-gen) every field of every module GenesisState is consumed by InitGenesis and produced by ExportGenesis, and InitGenesis does not overwrite a field of the state it was given; (X-mem) every write to in-memory keeper state is wiring, a rebuild from the store, or a self-validating cache — anything else is consensus-relevant state outside the store.",
 		NotCovered:  []string{"bit-identical app hash (needs two executions)", "losslessness of exported values beyond field coverage", "nondeterminism inside dependencies (SDK, wasmvm)"},
 		Assumptions: []string{"scope by package class rather than reachability (conservative)", "telemetry calls do not influence state"},
-		MinObl:      170,
+		MinObl:      180,
 		Run:         runC19,
 	})
 }
@@ -150,6 +150,16 @@ func runC19(c *rules.Ctx) {
 	c.HasCall(PM+"SetPoolRoute", "sync.Map.Delete", []string{"k.cachedPoolModules", "poolId"}, true, "rewriting a route invalidates its cache entry", "")
 	c.WhoMayCall("x/poolmanager/types.FormatModuleRouteKey", []string{"poolmanager.Keeper.getPoolRouteRaw", "poolmanager.Keeper.SetPoolRoute", "poolmanager.Keeper.GetPoolModule"}, "the route key is touched only by the cached reader, the raw reader and the invalidating writer")
 	// genesis rebuild of the lockup accumulation uses the same bucket keys as the running chain
+	lockupGenesisAccumulationRules(c)
+	// poolmanager import: parameters first — writing a denom-pair taker fee consults the default taker fee of the params
+	c.Order("x/poolmanager.Keeper.InitGenesis", "poolmanager.Keeper.SetParams", "poolmanager.Keeper.SetDenomPairTakerFee", "the imported parameters are in the store before the denom-pair taker fees are restored (an override equal to the *old* default would otherwise be dropped)")
+	c.NeverAfter("x/poolmanager.Keeper.InitGenesis", "poolmanager.Keeper.SetDenomPairTakerFee", "poolmanager.Keeper.SetParams", "parameters are not rewritten after the taker-fee overrides")
+	// pool-incentives export reads a pool's no-lock gauge links through a prefix closed by the separator
+	const PIK = "x/pool-incentives/types."
+	c.KeyLayout(PIK+"GetPoolNoLockGaugeIdIterationStoreKey", "no-lock-pool-incentives/<poolId>/", "the iteration prefix of pool n ends with '/' (pool 1 does not select the links of pools 10, 11, …)")
+	c.KeyLayout(PIK+"GetPoolNoLockGaugeIdStoreKey", "no-lock-pool-incentives/<poolId>/<gaugeId>", "the link key it selects: same prefix followed by the gauge id")
+	c.KeyLayout(PIK+"GetPoolGaugeIdInternalStoreKey", "pool-incentives/<poolId>/<time.Duration.String(duration)>", "internal gauge link: pool id closed by '/' before the duration")
+	c.KeyLayout(PIK+"GetPoolIdFromGaugeIdStoreKey", "pool-incentives-pool-id/<gaugeId>/<time.Duration.String(duration)>", "reverse link: gauge id closed by '/' before the duration")
 	c.MapKeys("x/lockup/keeper.Keeper.InitializeAllLocks", "elem(elem(locks).Coins).Denom | elem(locks).Duration | elem(has(elem(elem(locks).Coins).Denom))", 4, "the import rebuilds per-denom accumulation keyed by each lock's own duration")
 	c.MapKeys("x/lockup/keeper.Keeper.InitializeAllSyntheticLocks", "elem(syntheticLocks).SynthDenom | elem(syntheticLocks).Duration | elem(has(elem(syntheticLocks).SynthDenom))", 4, "the import rebuilds synthetic-denom accumulation keyed by the synthetic lock's duration (as create/delete/add/slash do)")
 	c.CallArg("x/lockup/keeper.Keeper.writeDurationValuesToAccumTree", "sumtree.Tree.Increase", 0, "lockupkeeper.Keeper.accumulationStore(k,ctx,denom)", "rebuilt totals are written to the denom's accumulation store")
